@@ -1322,18 +1322,35 @@ JANET_CORE_FN(cfun_channel_choice,
         }
     }
 
-    /* Wait for all readers or writers */
-    for (int32_t i = 0; i < argc; i++) {
-        if (janet_indexed_view(argv[i], &data, &len) && len == 2) {
-            /* Write */
-            JanetChannel *chan = janet_getchannel(data, 0);
-            janet_channel_push_with_lock(chan, data[1], 1);
-        } else {
-            /* Read */
-            Janet item;
-            JanetChannel *chan = janet_getchannel(argv, i);
-            janet_channel_pop_with_lock(chan, &item, 1);
+    /* Wait for all readers or writers. Registering a give clause can raise (a value that cannot be sent
+     * over a thread channel): the clauses registered before it must then not stay behind - they would
+     * resume the fiber out of a later, unrelated wait - and the clauses after it still hold their locks. */
+    volatile int32_t reg_i = 0;
+    JanetTryState tstate;
+    JanetSignal signal = janet_try(&tstate);
+    if (signal == JANET_SIGNAL_OK) {
+        for (reg_i = 0; reg_i < argc; reg_i++) {
+            int32_t i = reg_i;
+            if (janet_indexed_view(argv[i], &data, &len) && len == 2) {
+                /* Write */
+                JanetChannel *chan = janet_getchannel(data, 0);
+                janet_channel_push_with_lock(chan, data[1], 1);
+            } else {
+                /* Read */
+                Janet item;
+                JanetChannel *chan = janet_getchannel(argv, i);
+                janet_channel_pop_with_lock(chan, &item, 1);
+            }
         }
+        janet_restore(&tstate);
+    } else {
+        Janet payload = tstate.payload;
+        janet_restore(&tstate);
+        for (int32_t j = reg_i + 1; j < argc; j++) {
+            janet_chan_unlock(chan_of_clause(argv, j));
+        }
+        janet_vm.root_fiber->sched_id++;
+        janet_signalv(signal, payload);
     }
 
     janet_await();
